@@ -855,5 +855,5 @@ Definition success (status : Z) : bool := (Z.leb 200 status && Z.ltb status 300)
     panic — the recovery middleware produces an answer, and a panic is never a
     success status *)
 Theorem request_panic_is_non_success h :
-  (exists status, recovery_mw h = status) /\ (h = Panicked -> success (recovery_mw h) = false).
-Proof. split; [eexists; reflexivity|intros ->; reflexivity]. Qed.
+  (exists status, recovery_mw h = status) /\ (forall k, h = Panicked k -> success (recovery_mw h) = false).
+Proof. split; [eexists; reflexivity|intros k ->; destruct k; reflexivity]. Qed.
